@@ -81,31 +81,6 @@ mod proofs {
         let tvo = |x: usize| if x == 1 { Some(true) } else if x == 0 { Some(false) } else { None };
         assert_eq!(Term(a).no_inf_inconsistency(&Term(b)), tvo(a) == tvo(b) || tvo(a).is_none());
     }
-    // ---- slice / Vec helpers of rule O (to_vec, [a, b].concat(), <&[T]>::into, vec![x; n], as_slice): BOUNDED cross-check
-    // (slices of length <= 3; unwinding assertions on), NOT a proof - the contracts stay on the assumed list.
-    #[kani::proof]
-    #[kani::unwind(8)]
-    fn outlined_slice_ops_bounded() {
-        let xs: [usize; 3] = kani::any(); let ys: [usize; 3] = kani::any();
-        let la: usize = kani::any(); let lb: usize = kani::any();
-        kani::assume(la <= 3 && lb <= 3);
-        let av = [Var(xs[0]), Var(xs[1]), Var(xs[2])]; let bv = [Var(ys[0]), Var(ys[1]), Var(ys[2])];
-        let (a, b) = (&av[..la], &bv[..lb]);
-        let v = a.to_vec();
-        assert!(v.len() == la);
-        let c = [a, b].concat();
-        assert!(c.len() == la + lb);
-        let i: usize = kani::any();
-        if i < la { assert!(v[i] == a[i] && c[i] == a[i]); }
-        if i < lb { assert!(c[la + i] == b[i]); }
-        let tv = [Term(xs[0]), Term(xs[1]), Term(xs[2])];
-        let t: Vec<Term> = (&tv[..la]).into();
-        assert!(t.len() == la && t.as_slice().len() == la);
-        if i < la { assert!(t[i] == tv[i] && t.as_slice()[i] == tv[i]); }
-        let u = vec![Term::UND; lb];
-        assert!(u.len() == lb);
-        if i < lb { assert!(u[i] == Term(2)); }
-    }
     #[kani::proof]
     fn model_counts() {
         let c: usize = kani::any(); let m: usize = kani::any();
